@@ -263,10 +263,16 @@ func (s *Store) compact(footer *Footer, partialCompactStart int,
 
 		newSS, newBase = s.mergeSegStacks(footer, partialCompactStart, ssHigher)
 	} else {
-		newSS = footer.ss      // Safe as footer ref count is held positive.
-		if len(newSS.a) <= 1 { // No incoming data & 1 or fewer footer segments.
+		// Safe as footer ref count is held positive.
+		if len(footer.ss.a) <= 1 { // No incoming data & 1 or fewer footer segments.
 			return ErrNothingToCompact // no need to perform compaction.
 		}
+
+		// Compact what is persisted, including the child collections:
+		// merge with an incoming stack that has no segments but the
+		// same child collections as the footer.
+		newSS, newBase = s.mergeSegStacks(footer, partialCompactStart,
+			footer.emptySegStack(footer.ss.options))
 	}
 
 	var frefCompact *FileRef
@@ -402,6 +408,19 @@ func (s *Store) mergeSegStacks(footer *Footer, splicePoint int,
 	}
 
 	return rv, rvBase
+}
+
+// emptySegStack returns a segmentStack without segments that has the
+// same child collections, with the same incarnations, as the footer.
+func (f *Footer) emptySegStack(options *CollectionOptions) *segmentStack {
+	rv := &segmentStack{options: options, incarNum: f.incarNum}
+	for cName, childFooter := range f.ChildFooters {
+		if rv.childSegStacks == nil {
+			rv.childSegStacks = make(map[string]*segmentStack)
+		}
+		rv.childSegStacks[cName] = childFooter.emptySegStack(options)
+	}
+	return rv
 }
 
 func (right *Footer) spliceFooter(left *Footer, splicePoint int) {
